@@ -1,4 +1,5 @@
 import FiberModel.Basic
+import FiberModel.C19.Url
 /-
 C16 — model of middleware/csrf (csrf.go `New` and the returned handler, `DeleteToken`,
 `originMatchesHost`, `refererMatchesHost`; helpers.go `normalizeOrigin`, `subdomain.match`;
@@ -6,10 +7,15 @@ extractors.go; storage_manager.go and session_manager.go `getRaw/setRaw/delRaw`)
 little of middleware/session that the session back-ends go through (store.go `getSession` id
 resolution, session.go `Save`, middleware.go auto-save).
 
-Parameters (not modelled): `net/url.Parse` (the harness ships `(ok, scheme, host)` of the lower-cased
-Origin / Referer header; configuration origins are modelled for the shapes `scheme://host[:port][/]`),
-the two `KeyGenerator`s (`gen n`, `sgen n` = the n-th key handed out), gob (the session blob is the
-token slot itself), fasthttp header/cookie/arg storage. Time is in whole seconds.
+`net/url.Parse` — inside `normalizeOrigin` and on the lower-cased Origin / Referer header — is the
+transcription `C19.Url.parse` of Go 1.23.5 url.go (Url.lean of C19, core Lean only); the harness ships
+the real `url.Parse` answers for every string the middleware hands to it and the driver compares them
+with the transcription on every case. `strings.ToLower` is Go's ASCII fast path (`B.toLower`): the
+driver refuses cases in which a lower-cased text is not ASCII.
+
+Parameters (not modelled): the two `KeyGenerator`s (`gen n`, `sgen n` = the n-th key handed out), gob
+(the session blob is the token slot itself), fasthttp header/cookie/arg storage. Time is in whole
+seconds.
 -/
 namespace C16
 open B
@@ -25,21 +31,27 @@ structure Sub where
 def Sub.match (s : Sub) (o : Bytes) : Bool :=
   decide (o.length ≥ s.pre.length + s.suf.length) && hasPrefix o s.pre && hasSuffix o s.suf
 
-/-- helpers.go `normalizeOrigin` for inputs of shape `scheme://host[:port][/]` (anything with a path,
-    query, fragment, wildcard or a non-http(s) scheme is invalid). `none` = invalid. -/
+/-- helpers.go `normalizeOrigin`: `url.Parse`, scheme `http`/`https` only (net/url has lower-cased
+    it), no `*` in the host, a host, nothing behind it but an optional root path. `none` = invalid. -/
 def normalizeOrigin (o : Bytes) : Option Bytes :=
-  match indexOf o (b "://") with
+  match C19.Url.parse o with
   | none => none
-  | some i =>
-    let scheme := toLower (o.take i)
-    let rest := o.drop (i + 3)
-    let host := if rest.getLast? = some 47 then rest.dropLast else rest
-    if (scheme ≠ b "http" ∧ scheme ≠ b "https") || host.isEmpty || host.contains 47 || host.contains 42
-       || host.contains 63 || host.contains 35 || host.contains 32 then none
-    else some (scheme ++ b "://" ++ toLower host)
+  | some u =>
+    if u.scheme ≠ b "http" ∧ u.scheme ≠ b "https" then none
+    else if u.host.contains 42 then none
+    else if u.host = [] || (u.path ≠ [] && u.path ≠ b "/") || u.rawQuery ≠ [] || u.fragment ≠ [] then none
+    else some (toLower u.scheme ++ b "://" ++ toLower u.host)
 
-/-- The loop over `cfg.TrustedOrigins` in `New` (each origin is trimmed first). `none` = the
-    constructor panics. -/
+/-- csrf.go `New`, wildcard entry, behind `normalizeOrigin`: the normalised origin is split behind ITS
+    OWN `://`, and what follows must still start with the dot (else panic). -/
+def wildcardSplit (n : Bytes) : Option Sub :=
+  match indexOf n (b "://") with
+  | none => none
+  | some j =>
+    if (n.drop (j + 3)).head? = some 46 then some { pre := n.take (j + 3), suf := n.drop (j + 3) } else none
+
+/-- The loop over `cfg.TrustedOrigins` in `New` (each origin is trimmed first; in a `…://*.…` entry the
+    `*` is cut out before normalising). `none` = the constructor panics. -/
 def buildLoop : List Bytes → List Bytes → List Sub → Option (List Bytes × List Sub)
   | [], os, ss => some (os, ss)
   | o :: rest, os, ss =>
@@ -48,7 +60,10 @@ def buildLoop : List Bytes → List Bytes → List Sub → Option (List Bytes ×
     | some i =>
       match normalizeOrigin (o.take (i + 3) ++ o.drop (i + 4)) with
       | none => none
-      | some n => buildLoop rest os (ss ++ [{ pre := n.take (i + 3), suf := n.drop (i + 3) }])
+      | some n =>
+        match wildcardSplit n with
+        | none => none
+        | some sd => buildLoop rest os (ss ++ [sd])
     | none =>
       match normalizeOrigin o with
       | none => none
@@ -64,22 +79,20 @@ inductive Backend where
   | storage | sessStore | sessMw
   deriving Repr, DecidableEq
 
-structure Cfg where
-  backend : Backend
-  ext : Ext
-  single : Bool            -- SingleUseToken
-  idle : Nat               -- IdleTimeout in seconds (> 0)
-  origins : List Bytes     -- trustedOrigins
-  subs : List Sub          -- trustedSubOrigins
-
 /-! ## Requests and state -/
 
-/-- `url.Parse(strings.ToLower(header))`: parameter -/
+/-- what the handler reads off `url.Parse(strings.ToLower(header))`: error or not, `Scheme`, `Host` -/
 structure UrlInfo where
   ok : Bool
   scheme : Bytes
   host : Bytes
   deriving Repr, DecidableEq
+
+/-- `url.Parse` of an (already lower-cased) header value -/
+def urlInfoOf (t : Bytes) : UrlInfo :=
+  match C19.Url.parse t with
+  | none => { ok := false, scheme := [], host := [] }
+  | some u => { ok := true, scheme := u.scheme, host := u.host }
 
 structure Req where
   method : Bytes
@@ -90,16 +103,55 @@ structure Req where
   form : Bytes      -- urlencoded body `_csrf`
   param : Bytes     -- route parameter
   custom : Bytes    -- header read by the custom extractor
-  origin : Bytes
-  ourl : UrlInfo
-  referer : Bytes
-  rurl : UrlInfo
+  origin : Bytes    -- Origin header
+  referer : Bytes   -- Referer header
   host : Bytes      -- Host header
   https : Bool      -- TLS connection
   del : Bool        -- the protected handler calls `DeleteToken`
   failGet : Bool    -- injected storage faults during this request
   failSet : Bool
   failDel : Bool
+  skip : Bool := false   -- the request carries what the harness' `Next` looks for (`X-Skip: 1`)
+
+/-- `url.Parse(strings.ToLower(c.Get("Origin")))` in `originMatchesHost` -/
+def Req.ourl (q : Req) : UrlInfo := urlInfoOf (toLower q.origin)
+/-- `url.Parse(strings.ToLower(c.Get("Referer")))` in `refererMatchesHost` -/
+def Req.rurl (q : Req) : UrlInfo := urlInfoOf (toLower q.referer)
+
+/-- the error the middleware hands to `cfg.ErrorHandler` -/
+inductive Err where
+  | originInvalid | originNoMatch                      -- ErrOriginInvalid, ErrOriginNoMatch
+  | refererNotFound | refererInvalid | refererNoMatch  -- ErrRefererNotFound / Invalid / NoMatch
+  | missing                                            -- extractors.go ErrMissingHeader/Query/Param/Form/Cookie
+  | extractor                                          -- the error a custom extractor returned
+  | tokenNotFound | tokenInvalid                       -- ErrTokenNotFound, ErrTokenInvalid
+  | storage                                            -- the error of a failing storage / session-store call
+  deriving Repr, DecidableEq
+
+/-- the cookie fields of csrf.Config -/
+structure CookieCfg where
+  domain : Bytes := []        -- CookieDomain
+  path : Bytes := []          -- CookiePath
+  sameSite : Bytes := []      -- CookieSameSite as written ("" = not set: config.go puts "Lax")
+  secure : Bool := false      -- CookieSecure
+  httpOnly : Bool := false    -- CookieHTTPOnly
+  sessionOnly : Bool := false -- CookieSessionOnly
+  deriving Repr, DecidableEq
+
+structure Cfg where
+  backend : Backend
+  ext : Ext
+  single : Bool            -- SingleUseToken
+  idle : Nat               -- IdleTimeout in seconds (> 0)
+  origins : List Bytes     -- trustedOrigins
+  subs : List Sub          -- trustedSubOrigins
+  /-- `Config.ErrorHandler`, as far as the client sees it: the status of the reply it produces for an
+      error (default handler: `fiber.ErrForbidden` for every error). It is a function of the error
+      only and does not call `c.Next()`. -/
+  eh : Err → Nat := fun _ => 403
+  /-- `Config.Next`: `none` = nil; else the predicate on the request -/
+  next : Option (Req → Bool) := none
+  cookie : CookieCfg := {}
 
 /-- csrf.Token as kept in the session (`Raw` is the constant dummy value) -/
 structure Tok where
@@ -277,6 +329,26 @@ def refererCheck (cfg : Cfg) (q : Req) : Option OErr :=
   else if trusted cfg (q.rurl.scheme ++ b "://" ++ q.rurl.host) then none
   else some .noMatch
 
+/-- the error the gate reports when it is shut (`originMatchesHost`, and on https after
+    `errOriginNotFound` `refererMatchesHost`) -/
+def gateErr (cfg : Cfg) (q : Req) : Err :=
+  match originCheck cfg q with
+  | some .invalid => .originInvalid
+  | some .notFound =>
+    (match refererCheck cfg q with
+     | some .notFound => .refererNotFound
+     | some .invalid => .refererInvalid
+     | _ => .refererNoMatch)
+  | _ => .originNoMatch
+
+/-- the error behind `extract … = none`: a built-in extractor that finds nothing reports its
+    `ErrMissing…`; the custom one reports its own error, and an empty value without error ends in
+    `ErrTokenNotFound` -/
+def extractErr (e : Ext) (q : Req) : Err :=
+  match e with
+  | .custom => if q.custom = b "err" then .extractor else .tokenNotFound
+  | _ => .missing
+
 /-- the origin gate of the `default:` branch: `true` = the request may proceed -/
 def originGate (cfg : Cfg) (q : Req) : Bool :=
   match originCheck cfg q with
@@ -290,7 +362,7 @@ def isSafe (m : Bytes) : Bool := m = b "GET" || m = b "HEAD" || m = b "OPTIONS" 
 
 /-- what the middleware decided: rejected (optionally expiring the cookie) or the token to keep -/
 inductive Decision where
-  | reject (expire : Bool)
+  | reject (expire : Bool) (err : Err)
   | proceed (token : Bytes)     -- `[]` = generate a new one
 
 /-- the `switch c.Method()` of the handler -/
@@ -301,21 +373,21 @@ def decide' (cfg : Cfg) (sgen : Nat → Bytes) (q : Req) (c : Ctx) : Ctx × Deci
       let (c, ok) := getRaw cfg sgen q c q.ck
       (c, .proceed (if ok = some true then q.ck else []))
     else (c, .proceed [])
-  else if !originGate cfg q then (c, .reject false)
+  else if !originGate cfg q then (c, .reject false (gateErr cfg q))
   else match extract cfg.ext q with
-    | none => (c, .reject false)
+    | none => (c, .reject false (extractErr cfg.ext q))
     | some t =>
       -- `isFromCookie` never holds (it compares the closure with its constructor), so the cookie
       -- comparison always runs; with the cookie extractor it compares the cookie with itself
-      if t ≠ q.ck then (c, .reject false)
+      if t ≠ q.ck then (c, .reject false .tokenInvalid)
       else
         match getRaw cfg sgen q c t with
-        | (c, none) => (c, .reject false)            -- store error
-        | (c, some false) => (c, .reject true)       -- not in the store: expire the cookie
+        | (c, none) => (c, .reject false .storage)            -- store error
+        | (c, some false) => (c, .reject true .tokenNotFound) -- not in the store: expire the cookie
         | (c, some true) =>
           if cfg.single then
             match delRaw cfg sgen q c t with
-            | (c, true) => (c, .reject false)        -- could not be consumed
+            | (c, true) => (c, .reject false .storage) -- could not be consumed
             | (c, false) => (c, .proceed [])
           else (c, .proceed t)
 
@@ -326,11 +398,12 @@ def finishTail (cfg : Cfg) (sgen : Nat → Bytes) (q : Req) (c : Ctx) (token : B
   | (c, err) =>
     -- faults up to here hit the middleware itself; later ones hit the handler's `DeleteToken`
     let early := c.fg || c.fs || c.fd
-    if err && !isSafe q.method then (c, { pass := false, status := 403, ck := none, early := early })
+    if err && !isSafe q.method then (c, { pass := false, status := cfg.eh .storage, ck := none, early := early })
     else if q.del then
-      if q.ck = [] then (c, { pass := true, status := 403, ck := some token, early := early })
+      -- `DeleteToken` hands its errors to the ErrorHandler too; the protected handler returns the result
+      if q.ck = [] then (c, { pass := true, status := cfg.eh .tokenNotFound, ck := some token, early := early })
       else match delRaw cfg sgen q c q.ck with
-        | (c, true) => (c, { pass := true, status := 403, ck := some token, early := early })
+        | (c, true) => (c, { pass := true, status := cfg.eh .storage, ck := some token, early := early })
         | (c, false) => (c, { pass := true, status := 200, ck := some [], early := early })
     else (c, { pass := true, status := 200, ck := some token, early := early })
 
@@ -356,17 +429,78 @@ def mwSave (c : Ctx) : Ctx :=
   | some (id, slot) => { c with st := { c.st with sess := put c.st.sess id slot }, sc := some id }
   | none => c
 
-/-- one request through (session middleware,) csrf middleware and protected handler -/
-def handle (cfg : Cfg) (gen sgen : Nat → Bytes) (st : St) (q : Req) : St × Resp :=
+/-- one request through (session middleware,) csrf middleware and protected handler, `Config.Next`
+    not telling the middleware to step aside -/
+def handleCore (cfg : Cfg) (gen sgen : Nat → Bytes) (st : St) (q : Req) : St × Resp :=
   let c : Ctx := { st := st }
   let c := if cfg.backend = .sessMw then mwLoad sgen q c else c
   let (c, d) := decide' cfg sgen q c
   let (c, r) : Ctx × Resp := match d with
-    | .reject expire => (c, { pass := false, status := 403, ck := if expire then some [] else none,
-                              early := c.fg || c.fs || c.fd })
+    | .reject expire er => (c, { pass := false, status := cfg.eh er, ck := (if expire then some [] else none),
+                                 early := c.fg || c.fs || c.fd })
     | .proceed t => finish cfg gen sgen q c t
   let c := if cfg.backend = .sessMw then mwSave c else c
   (c.st, { r with sc := c.sc, gens := c.gens, sgens := c.sgens, fg := c.fg, fs := c.fs, fd := c.fd })
+
+/-- `cfg.Next != nil && cfg.Next(c)` -/
+def skipped (cfg : Cfg) (q : Req) : Bool :=
+  match cfg.next with
+  | some f => f q
+  | none => false
+
+/-- `Next` said true: `return c.Next()` — the csrf middleware does nothing at all (no handler in the
+    context, so the protected handler's `DeleteToken` has nothing to call either); a session
+    middleware in front still loads and saves its session -/
+def handleSkip (cfg : Cfg) (sgen : Nat → Bytes) (st : St) (q : Req) : St × Resp :=
+  let c : Ctx := { st := st }
+  let c := if cfg.backend = .sessMw then mwLoad sgen q c else c
+  let c := if cfg.backend = .sessMw then mwSave c else c
+  (c.st, { pass := true, status := 200, ck := none, early := false,
+           sc := c.sc, gens := c.gens, sgens := c.sgens, fg := c.fg, fs := c.fs, fd := c.fd })
+
+/-- one request through (session middleware,) csrf middleware and protected handler -/
+def handle (cfg : Cfg) (gen sgen : Nat → Bytes) (st : St) (q : Req) : St × Resp :=
+  if skipped cfg q then handleSkip cfg sgen st q else handleCore cfg gen sgen st q
+
+/-! ## The attributes of the csrf cookie (csrf.go `setCSRFCookie`, ctx.go `Cookie`, fasthttp) -/
+
+inductive SameSite where
+  | lax | strict | none | disabled     -- `disabled`: no SameSite attribute at all
+  deriving Repr, DecidableEq
+
+/-- what the `Set-Cookie` line of the csrf cookie carries besides name and value -/
+structure CookieAttrs where
+  domain : Bytes
+  path : Bytes
+  secure : Bool
+  httpOnly : Bool
+  sameSite : SameSite
+  expires : Option Int       -- seconds on the model clock; `none` = no Expires attribute (session cookie)
+  deriving Repr, DecidableEq
+
+/-- ctx.go `Cookie`: the switch on `utils.ToLower(cookie.SameSite)`; config.go has replaced "" by "Lax" -/
+def sameSiteOf (v : Bytes) : SameSite :=
+  if toLower v = b "strict" then .strict
+  else if toLower v = b "none" then .none
+  else if toLower v = b "disabled" then .disabled
+  else .lax
+
+/-- `setCSRFCookie` → `c.Cookie` → fasthttp: domain as configured; the path gets a leading slash
+    (fasthttp `normalizePath`; the driver keeps to paths it leaves alone otherwise); `SameSite=None`
+    switches `Secure` on (fasthttp `SetSameSite`); `Expires` = now + expiry unless `SessionOnly`
+    (`expiry` = IdleTimeout, or −1 h when the cookie is being expired); no Max-Age. -/
+def attrsOf (cc : CookieCfg) (idle now : Nat) (expire : Bool) : CookieAttrs :=
+  { domain := cc.domain,
+    path := if cc.path.head? = some 47 then cc.path else 47 :: cc.path,
+    secure := cc.secure || sameSiteOf cc.sameSite = .none,
+    httpOnly := cc.httpOnly,
+    sameSite := sameSiteOf cc.sameSite,
+    expires := if cc.sessionOnly then none
+               else some (if expire then (now : Int) - 3600 else (now : Int) + idle) }
+
+/-- the attributes of the csrf cookie a response sets, if it sets one -/
+def respAttrs (cfg : Cfg) (now : Nat) (r : Resp) : Option CookieAttrs :=
+  r.ck.map fun t => attrsOf cfg.cookie cfg.idle now (t = [])
 
 /-! ## Histories -/
 
